@@ -1,4 +1,74 @@
+import Proofs.Core
+import Proofs.NNSpecLemmas
 import SynapModel.Ops
+/-!
+# C14 — Fused operations equal the compositions their documentation equates them with
+
+Value identities on the model, for all operand shapes and values.  (The gradients of both sides
+then coincide because both are vector-Jacobian products of the same function: `Props.C01.vjp_unique`;
+on the implementation both sides' values and gradients are compared by the check.)
+-/
 namespace Props.C14
-theorem placeholder : True := trivial
+open Synap Synap.NDArray Synap.Np Synap.Kernels Synap.Api Synap.Ops Proofs.Core Proofs.NNSpec
+
+variable {α : Type} [Zero α] [One α] [Add α] [Sub α] [Mul α] [Div α] [Neg α] [NatCast α]
+  [OfScientific α] [LT α] [DecidableLT α] [LE α] [DecidableLE α] [Transc α]
+
+/-- **linear = x @ W.T + b** (and `x @ W.T` without bias); **addmm = a + b @ c**. -/
+theorem linear_is_addmm (x w b : NDArray α) :
+    linearForward x w (some b) = (swapaxes w 0 1).bind (fun wt => (matmul x wt).bind (fun m => addForward b m)) ∧
+    linearForward x w none = (swapaxes w 0 1).bind (fun wt => matmul x wt) ∧
+    (∀ a c, addmmForward a x c = (matmul x c).bind (fun m => addForward a m)) := by
+  exact ⟨rfl, rfl, fun _ _ => rfl⟩
+
+/-- **cross-entropy = NLL of log_softmax** (over dim 1 of a 2-d input). -/
+theorem cross_entropy_is_nll_log_softmax (x : NDArray α) (labels : List Nat) (h2 : x.shape.length = 2) :
+    crossEntropyForward x labels = (logSoftmaxForward x 1).bind (fun ls => nllForward ls labels) := by
+  simp [crossEntropyForward, h2]
+
+/-- **mean = sum / count** -/
+theorem mean_is_sum_div_count (x : NDArray α) (ax : Axes) (keep : Bool) (axes : List Nat)
+    (h : ax.norm x.shape.length = some axes) :
+    meanForward x ax keep = (sumForward x ax keep).map (fun s => s.map (· / (((axes.map (fun k => x.shape.getD k 0)).foldr (· * ·) 1 : Nat) : α))) := by
+  simp [meanForward, sumForward, Np.sum, h]
+
+/-- **flatten = reshape** to the merged shape -/
+theorem flatten_is_reshape (x : NDArray α) (s e : Int) :
+    flattenForward x s e = (flattenTarget x.shape s e).bind (fun t => reshapeForward x t) := by
+  rfl
+
+/-- **a − b = a + (−b)** with `−b = b * −1` -/
+theorem sub_is_add_neg (st : TState α) (a b : Nat) :
+    applySOp st .subT a (.inl b) =
+      (scalarOperand st (-1) b).bind (fun (st1, S) => (one1 (apply st1 .mul [b, S])).bind (fun (st2, m) => one1 (apply st2 .add [a, m]))) := by
+  rfl
+
+/-- **a / b = a * b ** −1** -/
+theorem div_is_mul_pow (st : TState α) (a b : Nat) :
+    applySOp st .divT a (.inl b) = (one1 (apply st (.pow (-1)) [b])).bind (fun (st1, p) => one1 (apply st1 .mul [a, p])) := by
+  rfl
+
+variable {R : Type} [CommRing R]
+
+/-- **stack = concat of the unsqueezed operands** -/
+theorem stack_is_concat_unsqueeze (xs : List (NDArray R)) (hxs : ∀ x ∈ xs, x.WF) (axis : Int) (y : NDArray R)
+    (h : stackForward xs axis = some y) :
+    ∃ us, xs.mapM (fun x => unsqueezeForward x [axis]) = some us ∧ concatForward us axis = some y := by
+  exact stack_is_concat_expand xs axis y h
+
+/-- **unbind inverts stack** -/
+theorem unbind_inverts_stack (xs : List (NDArray R)) (hxs : ∀ x ∈ xs, x.WF) (hne : xs ≠ []) (axis : Int) (y : NDArray R)
+    (h : stackForward xs axis = some y) : unbindForward y axis = some xs := by
+  exact unbind_stack xs hxs axis y h
+
+/-- **movedim between adjacent dims = transpose** -/
+theorem movedim_adjacent_is_transpose (x : NDArray R) (a : Nat) (ha : a + 1 < x.shape.length) :
+    movedimForward x a (a + 1 : Nat) = transposeForward x a (a + 1 : Nat) ∧
+    movedimForward x (a + 1 : Nat) a = transposeForward x a (a + 1 : Nat) := by
+  have h0 : normAxis x.shape.length (a : Int) = some a := normAxis_natCast _ _ (by omega)
+  have h1 : normAxis x.shape.length ((a + 1 : Nat) : Int) = some (a + 1) := normAxis_natCast _ _ ha
+  obtain ⟨e1, e2⟩ := moveaxisPerm_adjacent x.shape.length a ha
+  simp only [movedimForward, transposeForward, moveaxis, swapaxes, h0, h1, Option.bind_eq_bind,
+    Option.bind_some, Option.pure_def, e1, e2, and_self]
+
 end Props.C14
